@@ -78,15 +78,15 @@ func (e *Engine) RunHarness(fn *ssa.Function) (res HarnessResult) {
 // ---------- discharge ----------
 
 type Verdict struct {
-	VC      *VC
-	Res     smt.Result
-	Model   map[string]*smt.Term
-	RecVals []*smt.Term
-	Solver  string
-	Seconds float64
-	File    string
-	Cross   string // result of the cross-check solver, if any
-	Abstracted int // kernel instances replaced under proved lemmas
+	VC         *VC
+	Res        smt.Result
+	Model      map[string]*smt.Term
+	RecVals    []*smt.Term
+	Solver     string
+	Seconds    float64
+	File       string
+	Cross      string // result of the cross-check solver, if any
+	Abstracted int    // kernel instances replaced under proved lemmas
 }
 
 type DischargeOpts struct {
